@@ -284,3 +284,67 @@ def cli_history(steps, cwd, pre=None):
         r = cli_run(cfg, cwd, outputs=[])
         out.append({'expect': exp, 'rc': r['rc'], 'log': r['log'][-600:], 'snapshot': snap()})
     return out
+
+
+def loaders(config, cwd=None):
+    """materialize_set, materialize (rdflib) and materialize_oxigraph for one configuration, in canonical quad form."""
+    import io, pyoxigraph, rdflib, morph_kgc
+    old = os.getcwd()
+    out = {}
+    try:
+        if cwd:
+            os.chdir(cwd)
+        try:
+            out['set'] = sorted(morph_kgc.materialize_set(config))
+        except Exception as e:
+            return {'set_exc': _bucket(e)}
+        def oxi_term(t):
+            if t is None or isinstance(t, pyoxigraph.DefaultGraph):
+                return ''
+            if isinstance(t, pyoxigraph.BlankNode):
+                return '_:B'
+            if isinstance(t, pyoxigraph.Triple):
+                return '<< %s %s %s >>' % (oxi_term(t.subject), oxi_term(t.predicate), oxi_term(t.object))
+            return str(t)
+        # expected quads: every statement parsed on its own by the strict parser
+        exp, bad = [], 0
+        for l in out['set']:
+            try:
+                for q in pyoxigraph.parse(io.BytesIO((l + ' .\n').encode('utf-8')), 'application/n-quads'):
+                    exp.append([oxi_term(q.subject), oxi_term(q.predicate), oxi_term(q.object), oxi_term(q.graph_name)])
+            except Exception:
+                bad += 1
+        out['expected'] = sorted(exp)
+        out['unparseable'] = bad
+        try:
+            st = morph_kgc.materialize_oxigraph(config)
+            out['oxigraph'] = sorted([oxi_term(q.subject), oxi_term(q.predicate), oxi_term(q.object), oxi_term(q.graph_name)] for q in st)
+            out['oxigraph_len'] = len(st)
+        except Exception as e:
+            out['oxigraph_exc'] = _bucket(e)
+        def rd_term(t):
+            if isinstance(t, rdflib.BNode):
+                return '_:B'
+            if isinstance(t, rdflib.Literal):
+                if t.language:
+                    return pyoxigraph.Literal(str(t), language=t.language).__str__()
+                if t.datatype and str(t.datatype) != 'http://www.w3.org/2001/XMLSchema#string':
+                    return pyoxigraph.Literal(str(t), datatype=pyoxigraph.NamedNode(str(t.datatype))).__str__()
+                return pyoxigraph.Literal(str(t)).__str__()
+            return '<%s>' % t
+        try:
+            g = morph_kgc.materialize(config)
+            store_quads = []
+            for (s, p, o), ctxs in g.store.triples((None, None, None), context=None):
+                for c in ctxs:
+                    name = getattr(c, 'identifier', c)
+                    gname = '' if (isinstance(name, rdflib.BNode) or name == g.identifier) else '<%s>' % name
+                    store_quads.append([rd_term(s), rd_term(p), rd_term(o), gname])
+            out['rdflib_store'] = sorted(store_quads)
+            out['rdflib_view'] = sorted([rd_term(s), rd_term(p), rd_term(o)] for s, p, o in g)
+            out['rdflib_len'] = len(g)
+        except Exception as e:
+            out['rdflib_exc'] = _bucket(e)
+        return out
+    finally:
+        os.chdir(old)
